@@ -48,6 +48,7 @@ pub fn run_c05_component(args: &Args, rep: &mut Report) {
     let maxcap: u64 = if args.thorough { 14 } else { 10 };
     run_cases(args, "C05", maxcap + 1, rep, &mut |cap, rep| {
         if !mine(args, cap) {
+            rep.cases -= 1;
             return;
         }
         let cap = cap as usize;
@@ -123,6 +124,7 @@ pub fn run_c05_cli(args: &Args, rep: &mut Report) {
     let maxcap: u64 = if args.thorough { 10 } else { 7 };
     run_cases(args, "C05", maxcap + 1, rep, &mut |cap, rep| {
         if !mine(args, cap) {
+            rep.cases -= 1;
             return;
         }
         let cap = cap as usize;
@@ -186,6 +188,7 @@ pub fn run_c10_component(args: &Args, rep: &mut Report) {
     let nops = pool.len() + 2;
     run_cases(args, "C10", maxb + 1, rep, &mut |b, rep| {
         if !mine(args, b) {
+            rep.cases -= 1;
             return;
         }
         let budget = b as usize;
